@@ -188,17 +188,24 @@ func (db *DB) search(key types.Key) ([]byte, bool) {
 	return nil, false
 }
 
+// NOTE: call with oracle.writeLock, it makes the caller the only writer of db.memtable
 func (db *DB) rawset(entry types.Entry) {
-	db.memtable.set(entry)
+	mt := db.memtable
+	mt.set(entry)
 
-	if db.memtable.size() >= db.config.MemtableByteThreshold {
-		db.memtable.freeze()
-		imt := db.memtable
+	if mt.size() >= db.config.MemtableByteThreshold {
+		mt.freeze()
+		next := mt.reset()
 
-		db.flushC <- imt
-		db.immutables.PushBack(imt)
+		// readers hold db.mu: publish the frozen memtable and its successor together,
+		// and before the flusher can see (and finish) the frozen one
+		db.mu.Lock()
+		db.immutables.PushBack(mt)
+		db.memtable = next
+		db.mu.Unlock()
 
-		db.memtable = db.memtable.reset()
+		// db.mu must not be held here: the flusher needs it to make progress
+		db.flushC <- mt
 	}
 }
 
